@@ -115,9 +115,9 @@ def run_case(exe, wd, struct, cfg, tq_ms=4000, tag="c", timeout=300):
 # ------------------------------------------------------------------ generation
 # exclusion switches (each exclusion is counted in a label); set the variable to 1 to generate the excluded cases again
 ALLOW_SHORT_MULTI = os.environ.get("C18_ALLOW_SHORT_MULTI_REMOTE", "0") == "1"   # documented unsupported case
-ALLOW_MIXED_OUT = os.environ.get("C18_ALLOW_MIXED_OUT_TYPES", "0") == "1"        # finding C18-F1 (corpus/C18/regress/F1_*.json)
+ALLOW_MIXED_OUT = os.environ.get("C18_ALLOW_MIXED_OUT_TYPES", "1") == "1"        # finding C18-F1 (corpus/C18/regress/F1_*.json)
 ALLOW_FORWARD_RW = os.environ.get("C18_ALLOW_FORWARD_AFTER_RW", "0") == "1"       # finding C18-F3 (corpus/C18/regress/F3_*.json)
-ALLOW_PACKED_MULTI = os.environ.get("C18_ALLOW_PACKED_PLUS_SHAPE", "0") == "1"   # finding C18-F2 (corpus/C18/regress/F2_*.json)
+ALLOW_PACKED_MULTI = os.environ.get("C18_ALLOW_PACKED_PLUS_SHAPE", "1") == "1"   # finding C18-F2 (corpus/C18/regress/F2_*.json)
 
 FTYPES = [None, "DEFAULT", "FULL"]
 ALLT = [None, "DEFAULT", "FULL", "UPPER", "LOWER", "UPPER", "LOWER"]
@@ -284,7 +284,7 @@ def execute(struct, cfg, wd):
     while True:
         status, msg = run_case(exe, wd, struct, cfg, tq_ms=tq)
         tries += 1
-        if status in ("hang", "crash") and tries < (1 if S.failure else 3):
+        if (status == "hang" and tries < 3) or (status == "crash" and tries < (1 if S.failure else 3)):
             tq *= 2
             continue
         return status, msg
